@@ -88,7 +88,9 @@ Record inst := {
   i_on_enter : list string;                (* states with an on_enter_STATE event *)
   i_on_exit : list string;
   i_on_notrans : bool;
-  i_dur : list (string * dur) }.           (* effective duration of the timed states *)
+  i_dur : list (string * dur);
+  i_keep : list string }.                  (* states for which calc_output returns UNDEF:
+                                              "leave the output unchanged" *)           (* effective duration of the timed states *)
 
 Inductive logent :=
 | LCond (ev : string) (inst : bool) (t : tag)
@@ -250,6 +252,10 @@ Fixpoint chain (n : nat) (d : fsmdef) (i : inst) (s : fstate) (vis : tag) (newst
 
 Definition chain_limit (d : fsmdef) : nat := 3 * List.length (fd_states d).
 
+(* calc_output(): the state, or UNDEF = keep the current output *)
+Definition calc_out (i : inst) (s : fstate) (cur : string) : val :=
+  if str_mem cur (i_keep i) then f_out s else VStr cur.
+
 (* FSM.event(etype, tag=...) from outside a transition: (state, what the caller gets) *)
 Definition fsm_event (d : fsmdef) (i : inst) (s0 : fstate) (e : etype) (t : tag)
   : fstate * res bool :=
@@ -284,7 +290,7 @@ Definition fsm_event (d : fsmdef) (i : inst) (s0 : fstate) (e : etype) (t : tag)
           | (s3, None) =>
               match f_state s3 with
               | Some cur =>
-                  let out := VStr cur in
+                  let out := calc_out i s3 cur in
                   let s4 := if py_eq (f_out s3) out then s3
                             else st_log (st_out s3 out) [LOut (f_out s3) out] in
                   (st_log s4 (if str_mem cur (i_on_enter i) then [LOnEnter cur (f_out s4)] else []),
